@@ -246,6 +246,8 @@ class Translator:
             return sp.Or(A(0), A(1))
         if fn == "conjugate" or fn == "conj":
             return sp.conjugate(A(0))
+        if fn is None and isinstance(n.func, ast.Name) and n.func.id == "dict" and not args:
+            return sp.Function("dict")(*[sp.Function("kv_" + k.arg)(self.tr(k.value)) for k in n.keywords if k.arg])
         # method calls: x.method(args) -> method(x, args)
         if isinstance(n.func, ast.Attribute) and npf is None:
             recv = self.tr(n.func.value)
@@ -254,6 +256,48 @@ class Translator:
         fname = (npf or name or "call")
         return sp.Function(fname)(*[self.tr(a) for a in args],
                                   *[self.tr(k.value) for k in n.keywords if k.arg])
+
+    def t_ListComp(self, n):
+        # bound variables are renamed canonically so that the result does not depend on their names
+        saved = dict(self.env)
+        depth = getattr(self, "_comp_depth", 0)
+        self._comp_depth = depth + len(n.generators)
+        parts = []
+        try:
+            for i, g in enumerate(n.generators):
+                it = self.tr(g.iter)
+                tv = sp.Symbol(f"_it{depth + i}")
+                if isinstance(g.target, ast.Name):
+                    self.env[g.target.id] = tv
+                elif isinstance(g.target, (ast.Tuple, ast.List)):
+                    for j, e in enumerate(g.target.elts):
+                        if isinstance(e, ast.Name):
+                            self.env[e.id] = sp.Function("item")(tv, sp.Integer(j))
+                conds = [self.tr(c) for c in g.ifs]
+                parts.append(sp.Function("gen")(tv, it, *conds))
+            elt = self.tr(n.elt) if not isinstance(n, ast.DictComp) else sp.Function("kv")(self.tr(n.key), self.tr(n.value))
+        finally:
+            self.env = saved
+            self._comp_depth = depth
+        return sp.Function("comp")(elt, *parts)
+
+    t_GeneratorExp = t_ListComp
+    t_SetComp = t_ListComp
+    t_DictComp = t_ListComp
+
+    def t_Starred(self, n):
+        return sp.Function("splat")(self.tr(n.value))
+
+    def t_Dict(self, n):
+        items = []
+        for k, v in zip(n.keys, n.values):
+            if isinstance(k, ast.Constant) and isinstance(k.value, str):
+                items.append(sp.Function("kv_" + k.value)(self.tr(v)))
+            elif k is None:
+                items.append(sp.Function("kv_splat")(self.tr(v)))
+            else:
+                items.append(sp.Function("kv")(self.tr(k), self.tr(v)))
+        return sp.Function("dict")(*items)
 
     def t_JoinedStr(self, n):
         return sp.Symbol("<str>")
